@@ -219,6 +219,9 @@ not acceptable there, CPython's rule after an empty match): the remainder after 
 def firstEnd (n : Nat) (r : Re) (s : List Char) (mustAdvance : Bool) : Option (List Char) :=
   (matchEnds n r s).find? fun t => !mustAdvance || t.length < s.length
 
+/-- the part of `s` that is read when `t` is left (`match.group(0)`) -/
+def consumed (s t : List Char) : List Char := s.take (s.length - t.length)
+
 /-- the scanner behind `re.finditer(r, text)`: the successive non-overlapping matches from left
 to right, each as the pair (what remained at its start, what remained at its end).  `s` is what
 remains, `fuel` bounds the number of scanner steps (`2 * length + 2` is always enough). -/
